@@ -3,6 +3,9 @@ import itertools, datetime, operator
 from values import Interner, dtype_wire, err_class
 import vecgen as G
 from vecgen import POOLS, TYPES, BINOPS, UNOPS, SYMBOL, val, vals
+# C05 also runs every operator form over elements whose operators are not commutative (the written operand order shows)
+POOLS = dict(POOLS, nc=G.EXTRA["nc"])
+TYPES = TYPES + ["nc"]
 
 PID = "C05"
 RULE = ("bin: 7 operators x 5 operand forms (vector, list, scalar, reflected scalar, reflected list) x 49 dtype pairs over "
@@ -316,7 +319,7 @@ def gen_random(rng, tier):
         if rng.random() < 0.5:      # bias towards pairs for which Python defines something
             yt = rng.choice({"bool": ["int", "float"], "int": ["int", "float", "complex", "bool"], "float": ["float", "int"],
                              "complex": ["complex", "float"], "str": ["str", "int"], "date": ["td", "int", "date"],
-                             "td": ["td", "int", "float", "date"]}[xt])
+                             "td": ["td", "int", "float", "date"], "nc": ["int", "nc", "str"]}[xt])
         form, refl = rng.choice(FORMS)
         if excluded(op, form, refl, yt):
             continue
